@@ -2,5 +2,5 @@ SPECIFICATION Spec
 CONSTANTS
   Kinds = {"ok", "dq", "poor", "dq_poor"}
   DTypes = {"own_reporting", "own_baseline", "foreign", "frame"}
-  TZs = {"same", "other"}
+  TZs = {"same", "other", "other_same_offset"}
 INVARIANTS FailClosed FitGate StorePreserves UnfittedNeverPredicts
